@@ -164,9 +164,12 @@ func classify(err error, pn string) string {
 func c09Eval(c *fw.Ctx, k c09Case) (sig, desc string, nontrivial bool) {
 	ld := LayoutByTag(k.Layout)
 	l := wsp.Layout{Archs: ld.Archs, Method: 2, XFF: 0}
-	ch := c09Choices(k.Palette)
-	src := contentByCode(l, k.Now, ch, k.Src)
-	dst := contentByCode(l, k.Now, ch, k.Dst)
+	var src, dst []wsp.Ring
+	if k.Mode != "big" {
+		ch := c09Choices(k.Palette)
+		src = contentByCode(l, k.Now, ch, k.Src)
+		dst = contentByCode(l, k.Now, ch, k.Dst)
+	}
 	root := filepath.Join(c.Dir, "c09")
 	os.RemoveAll(root)
 	sdir, ddir := filepath.Join(root, "s"), filepath.Join(root, "d")
@@ -174,6 +177,23 @@ func c09Eval(c *fw.Ctx, k c09Case) (sig, desc string, nontrivial bool) {
 	os.MkdirAll(ddir, 0755)
 	sf := &BFile{L: l, Rings: src, Base: basePicks(k.Src, len(l.Archs))}
 	df := &BFile{L: l, Rings: dst, Base: basePicks(k.Dst, len(l.Archs))}
+	if k.Mode == "big" {
+		// two completely filled files of 8000+40 slots that differ in every 997th slot, their rings rotated as given
+		src, dst = EmptyRings(l), EmptyRings(l)
+		for i, a := range l.Archs {
+			for j, t := range SlotTimes(a, k.Now) {
+				cls := uint32(t/int64(a.Step)) % a.N
+				v := float64(j%50) + 0.25
+				src[i][cls] = wsp.Slot{T: uint32(t), V: v}
+				if j%997 == k.Palette {
+					v = -1
+				}
+				dst[i][cls] = wsp.Slot{T: uint32(t), V: v}
+			}
+		}
+		sf, df = &BFile{L: l, Rings: src, Base: k.Src}, &BFile{L: l, Rings: dst, Base: k.Dst}
+		k.Mode = "pair"
+	}
 	until := k.Until
 	if until == 0 {
 		until = k.Now
@@ -324,6 +344,26 @@ func runC09(c *fw.Ctx) {
 	clocks = []int64{clocks[1], clocks[len(clocks)-1]}
 	rmax, r0 := l.MaxRet(), ld.Archs[0].Ret()
 	c.R.Bounds["contents"] = fmt.Sprintf("all %d x %d (source, destination) contents of L4 (palette 0), every source against 27 destinations for palettes 1-3; thorough: all pairs for every palette", len(codes), len(codes))
+	if c.Shard == 0 {
+		// archives of many pages: windows far longer than any chunk a reader may use, every ring rotation class
+		lh := LayoutByTag("LH")
+		bnow := Clocks(lh.Archs, false, []string{"mid"})[1]
+		c.R.Bounds["big"] = "LH (8000 + 40 slots, 24 pages), both files full, differing in every 997th slot, ring rotations {0,1,2539,5461,7999} x 3 windows x archive all/0"
+		for ri, rot := range [][2]int{{0, 0}, {0, 1}, {2539, 0}, {5461, 7999}, {7999, 2539}} {
+			for wi, w := range [][2]int64{{0, 0}, {bnow - 7990, bnow - 3}, {bnow - 6000, bnow - 100}} {
+				k := c09Case{Layout: "LH", Now: bnow, Palette: (ri + wi) % 5, Src: []int{rot[0], ri % 2}, Dst: []int{rot[1], wi % 2}, Mode: "big", Archive: -(wi + ri + 1) % 2, From: w[0], Until: w[1]}
+				sig, desc, nt := c09Eval(c, k)
+				c.Count("evaluations", 1)
+				if nt {
+					c.Count("distinct_nontrivial", 1)
+				}
+				c.Outcome("big")
+				if sig != "" {
+					c.Violate(sig, clip(desc, 1500), 9000, k, "")
+				}
+			}
+		}
+	}
 	for pal := range c09Palettes {
 		for ci, now := range clocks {
 			if pal > 0 && ci > 0 && !c.Thorough() {
